@@ -5,9 +5,9 @@
    FULL STATEMENT (property text):  strict mode: a write that (a) names no version while the ledger has schemas, (b) names an
    unknown version, (c) has a posting the chart rejects, or (d) uses no template although the schema defines templates, is
    rejected with no effect;  AUDIT MODE ACCEPTS ALL FOUR.  Defaults: default || given at first creation, never later.
-   The strict half and the defaults are proved in full.  The audit half is REFUTED by the faithful model for (b) and (d)
-   (C29_audit_refuted_unknown_version, C29_audit_refuted_no_template: the code returns the error before / regardless of the
-   mode test) and proved for (a) and (c) (the two C29_audit_partial theorems). *)
+   The strict half and the defaults are proved in full.  The audit half is proved for (a), (c) and — for the code repaired by
+   fixes/01-audit-no-template.diff — (d); it is REFUTED by the faithful model for (b) (C29_audit_refuted_unknown_version:
+   ErrSchemaNotFound is returned before any mode test; kept as a known finding, a design choice). *)
 From Coq Require Import List ZArith String Bool.
 From LV Require Import Base.Util Ledger.Types Ledger.Core Ledger.Invariants Ledger.Chart Ledger.SchemaCtrl Ledger.SchemaProofs.
 Import ListNotations.
@@ -71,6 +71,25 @@ Theorem C29_audit_partial_chart_ignored : forall rv rm f now ss v template o r i
 Proof. exact audit_ignores_chart_verdict. Qed.
 Print Assumptions C29_audit_partial_chart_ignored.
 
+(* audit (d): the schema defines templates, the write names none: accepted, the submitted script runs (and resolves exactly as
+   under the same schema without templates).  Holds of the code with fixes/01-audit-no-template.diff; the unpatched code
+   returned "failed to find transaction template ``" here. *)
+Theorem C29_audit_template_optional : forall rv rm f now ss v o r s1 p,
+  v <> ""%string -> find_schema (ss_schemas ss) v = Some r -> find_ik (s_logs (ss_base ss)) (o_ik o) = None ->
+  aget String.eqb (sc_templates r) ""%string = None ->
+  run_input_d f now (ss_base ss) (chart_defaults rv rm (Some r)) (o_in o) = Done s1 p ->
+  exists ss', sstep rv rm f Audit now ss (SWrite v "" o) = SSR ss' (SOk (s_next_log s1) (payload_tx_id p) false).
+Proof. exact audit_template_optional. Qed.
+Print Assumptions C29_audit_template_optional.
+
+Theorem C29_audit_template_resolution : forall r i,
+  aget String.eqb (sc_templates r) ""%string = None ->
+  resolve_template Audit (Some r) "" i = Some i /\
+  resolve_template Audit (Some r) "" i
+  = resolve_template Audit (Some {| sc_version := sc_version r; sc_chart := sc_chart r; sc_templates := []; sc_created := sc_created r |}) "" i.
+Proof. exact audit_no_template_resolves. Qed.
+Print Assumptions C29_audit_template_resolution.
+
 (* defaults: default || given when the account row is first created; on later upserts the defaults play no role and every
    key absent from the given metadata keeps its stored value *)
 Theorem C29_defaults : forall hist_on now accs hist a dflt md first ins upd,
@@ -92,6 +111,7 @@ Definition ex_chart29 : chart :=
    ("world", Seg [] None (Some {| ca_meta := None |}))].
 Definition ex_post (s d : str) := {| p_src := s; p_dst := d; p_asset := "USD"; p_amt := 5 |}.
 Definition ex_create s d := {| o_in := ICreate [ex_post s d] None "" [] [] false; o_ik := ""; o_dry := false |}.
+Definition sc_templates_nonempty (ss : sstate) : Prop := existsb (fun r => match sc_templates r with [] => false | _ => true end) (ss_schemas ss) = true.
 Definition ex_run (m : mode) (l : list (Z * sinput)) : sstate * list sresult :=
   fold_left (fun acc ni => match sstep re_valid_small re_match_small ex_f m (fst ni) (fst acc) (snd ni) with
                            | SSR s r => (s, (snd acc ++ [r])%list) | SSPanic => acc end) l (sinit, []%list).
@@ -106,14 +126,14 @@ Proof.
 Qed.
 Print Assumptions C29_audit_refuted_unknown_version.
 
-(* REFUTED (d): audit mode rejects a template-less write when the schema defines templates *)
-Theorem C29_audit_refuted_no_template :
-  exists ss o, sstep re_valid_small re_match_small ex_f Audit 20 ss (SWrite "v1" "" o) = SSR ss (SErr ESchemaValidation).
+(* (d) repaired code (fixes/01-audit-no-template.diff): audit mode runs a template-less write under a schema with templates *)
+Example C29_audit_no_template_witness :
+  exists ss ss' o, sc_templates_nonempty ss /\
+    sstep re_valid_small re_match_small ex_f Audit 20 ss (SWrite "v1" "" o) = SSR ss' (SOk 2 (Some 1) false).
 Proof.
-  exists (fst (ex_run Audit [(10, SInsertSchema "v1" ex_chart29 [("pay", [ex_post "world" "bank"])])])), (ex_create "world" "bank").
-  vm_compute. reflexivity.
+  exists (fst (ex_run Audit [(10, SInsertSchema "v1" ex_chart29 [("pay", [ex_post "world" "bank"])])])).
+  eexists. exists (ex_create "world" "bank"). split; vm_compute; reflexivity.
 Qed.
-Print Assumptions C29_audit_refuted_no_template.
 
 (* non-vacuity: one history exercising (a)-(d) and the defaults, strict vs audit *)
 Example C29_example :
